@@ -51,7 +51,11 @@ pub fn one_case(rng: &mut Rng, id: String, big: bool) -> Case {
         match rng.below(10) {
             0 => {
                 ops.push("connect_bad".to_string());
-                let r = ip::lib_scope(|| IpcSender::<u64>::connect(format!("/nonexistent-{}/socket", rng.next())));
+                // names around and beyond what fits `sun_path` (108 bytes) as well: every failing connect must release what it took
+                let base_name = format!("/nonexistent-{}/socket", rng.next());
+                let want = [0usize, 0, 100, 107, 108, 109, 140, 300][rng.below(8) as usize];
+                let name = if want > base_name.len() { format!("{}{}", base_name, "x".repeat(want - base_name.len())) } else { base_name };
+                let r = ip::lib_scope(|| IpcSender::<u64>::connect(name));
                 if r.is_ok() {
                     case.fail("connect to a non-existent name succeeded".into());
                 }
